@@ -101,6 +101,43 @@ func alphabet() []optDef {
 	}
 }
 
+// extended: the rest of the option set. These are enumerated alone and paired (both orders) with
+// every option of the core alphabet; nothing is claimed about which of them are no-ops.
+func extended() []optDef {
+	mustRef := func(s string) ref.Ref {
+		r, err := ref.New(s)
+		if err != nil {
+			panic(err)
+		}
+		return r
+	}
+	baseOld := func() ref.Ref { return mustRef(regHost + "/" + srcRepo + ":base-old") }
+	baseNew := func() ref.Ref { return mustRef(regHost + "/" + srcRepo + ":base-new") }
+	return []optDef{
+		{"buildarg-rm", func(*fixtures) mod.Opts { return mod.WithBuildArgRm("HTTP_PROXY", regexp.MustCompile(".*")) }, never},
+		{"cmd", func(*fixtures) mod.Opts { return mod.WithConfigCmd([]string{"/bin/verif", "-x"}) }, never},
+		{"entrypoint", func(*fixtures) mod.Opts { return mod.WithConfigEntrypoint([]string{"/entry"}) }, never},
+		{"cfg-time-label", func(*fixtures) mod.Opts { return mod.WithConfigTimestampFromLabel("created") }, never},
+		{"cfg-time-max", func(*fixtures) mod.Opts { return mod.WithConfigTimestampMax(tSet) }, never},
+		{"cfg-time-after", func(*fixtures) mod.Opts {
+			return mod.WithConfigTimestamp(mod.OptTime{Set: tSet, After: tSet.Add(24 * time.Hour)})
+		}, never},
+		{"expose-add", func(*fixtures) mod.Opts { return mod.WithExposeAdd("8080/tcp") }, never},
+		{"expose-rm", func(*fixtures) mod.Opts { return mod.WithExposeRm("8080/tcp") }, never},
+		{"volume-add", func(*fixtures) mod.Opts { return mod.WithVolumeAdd("/data") }, never},
+		{"volume-rm", func(*fixtures) mod.Opts { return mod.WithVolumeRm("/data") }, never},
+		{"layer-time-label", func(*fixtures) mod.Opts { return mod.WithLayerTimestampFromLabel("created") }, never},
+		{"layer-time-max", func(*fixtures) mod.Opts { return mod.WithLayerTimestampMax(tSet) }, never},
+		{"layer-time-base1", func(*fixtures) mod.Opts { return mod.WithLayerTimestamp(mod.OptTime{Set: tSet, BaseLayers: 1}) }, never},
+		{"layer-time-baseref", func(*fixtures) mod.Opts { return mod.WithLayerTimestamp(mod.OptTime{Set: tSet, BaseRef: baseOld()}) }, never},
+		{"tar-time-max", func(*fixtures) mod.Opts { return mod.WithFileTarTimeMax("dir/inner.tar", tSet) }, never},
+		{"anno-oci-base", func(fx *fixtures) mod.Opts { return mod.WithAnnotationOCIBase(baseNew(), digest.Digest(fx.baseOld)) }, never},
+		{"anno-promote", func(*fixtures) mod.Opts { return mod.WithAnnotationPromoteCommon() }, never},
+		{"label-to-anno", func(*fixtures) mod.Opts { return mod.WithLabelToAnnotation() }, never},
+		{"rebase-refs", func(*fixtures) mod.Opts { return mod.WithRebaseRefs(baseOld(), baseNew()) }, never},
+	}
+}
+
 // ---- endpoint pairings -----------------------------------------------------------------------
 
 type pairing struct {
@@ -531,7 +568,8 @@ func TestVerifC13(t *testing.T) {
 	rec := ev.New()
 	defer rec.Flush(t)
 	rec.SampleCap = 3
-	h := &harness{t: t, rec: rec, opts: alphabet(), byName: map[string]int{}, pristineEx: map[string]map[string]string{}}
+	nCore := len(alphabet())
+	h := &harness{t: t, rec: rec, opts: append(alphabet(), extended()...), byName: map[string]int{}, pristineEx: map[string]map[string]string{}}
 	for i, o := range h.opts {
 		h.byName[o.name] = i
 	}
@@ -543,8 +581,8 @@ func TestVerifC13(t *testing.T) {
 		maxLen2, maxLen3 = min(n, 2), n >= 3
 	}
 	prs := pairings(rec.Thorough())
-	bound := fmt.Sprintf("every option program of length 0..%d over the %d-option alphabet (%s) x %d shapes (%s) x %d endpoint pairings (%s)",
-		maxLen2, len(h.opts), optNames(h.opts), len(h.fx.shapes), shapeNames(h.fx.shapes), len(prs), pairingNames(prs))
+	bound := fmt.Sprintf("every option program of length 0..%d over the %d-option core alphabet (%s) x %d shapes (%s) x %d endpoint pairings (%s); plus the %d further options (%s) alone x all pairings and paired in both orders with every core option x pairing %s",
+		maxLen2, nCore, optNames(h.opts[:nCore]), len(h.fx.shapes), shapeNames(h.fx.shapes), len(prs), pairingNames(prs), len(h.opts)-nCore, optNames(h.opts[nCore:]), prs[0].name)
 	if rec.Thorough() {
 		bound += fmt.Sprintf("; plus every program of length 3 over the full alphabet and every program of length 4 over the layer/history family (%s), each x %d shapes x 2 pairings (%s, %s)",
 			strings.Join(layerFamily, " "), len(h.fx.shapes), prs[0].name, prs[3].name)
@@ -580,12 +618,27 @@ func TestVerifC13(t *testing.T) {
 		progs [][]int
 		prs   []pairing
 	}
-	all := make([]int, len(h.opts))
+	all := make([]int, nCore)
 	for i := range all {
 		all[i] = i
 	}
 	var blocks []block
 	blocks = append(blocks, block{fmt.Sprintf("len0-%d/all-options", maxLen2), programs(all, 0, maxLen2), prs})
+	{
+		var single, pairs [][]int
+		for e := nCore; e < len(h.opts); e++ {
+			single = append(single, []int{e})
+			if maxLen2 >= 2 {
+				for c := 0; c < nCore; c++ {
+					pairs = append(pairs, []int{e, c}, []int{c, e})
+				}
+			}
+		}
+		blocks = append(blocks, block{"extended/alone", single, prs})
+		if len(pairs) > 0 {
+			blocks = append(blocks, block{"extended/paired-with-core", pairs, prs[:1]})
+		}
+	}
 	if (rec.Thorough() && os.Getenv("VERIF_C13_MAXLEN") == "") || maxLen3 {
 		two := []pairing{prs[0], prs[3]}
 		blocks = append(blocks, block{"len3/all-options", programs(all, 3, 3), two})
